@@ -79,7 +79,7 @@ def register(R, tier="quick"):
                ensures=[lambda I, env: fill_post(I, env)[0], lambda I, env: fill_post(I, env)[1],
                         lambda I, env: fill_post(I, env)[2], lambda I, env: fill_post(I, env)[3]],
                modifies=["self._dbfile"],
-               loops={0: LoopSpec(index="_j", inv=[fill_inv, "default is self._defaultbytes"], modifies=["self._dbfile"])},
+               loops={0: LoopSpec(index="_j", inv=[fill_inv], modifies=["self._dbfile"])},
                canaries=[Canary("fills-one-too-few", "for _ in xrange(docnum - self._count):", "for _ in xrange(docnum - self._count - 1):"),
                          Canary("fills-when-not-behind", "if docnum > self._count:", "if docnum >= self._count - 1:")],
                note="rows count .. docnum-1 receive the default record, nothing before them changes, the row counter "
